@@ -22,6 +22,8 @@ import warnings
 from fractions import Fraction
 from pathlib import Path
 
+import numpy as np
+
 from . import tlc
 from .core import Ctx, MachineryError
 from .store_replay import pmap
@@ -143,8 +145,13 @@ def eval_case(case):
             mass = MASSES[m2 // 2]
         else:
             mass = (MASSES[m2 // 2] + MASSES[m2 // 2 + 1]) / 2
+        # PerfTable.tla MassForms: a mass that is a whole number of kilograms may arrive as float, Python int, numpy
+        # integer or numpy float - the same mass; the form is chosen deterministically per query
+        if not isinstance(mass, str) and float(mass) == int(mass):
+            form = (int(mass) // 500 + h + len(c['fls'])) % 4
+            mass = [float, int, np.int64, np.float64][form](mass)
         rule = {'climb': SimpleFlightRules.CLIMB, 'cruise': SimpleFlightRules.CRUISE, 'descent': SimpleFlightRules.DESCEND}[c['ph']]
-        where = f'{c["ph"]} FL {fl} (given as {fl} x FL_TO_METERS m) mass {mass} in the {c["ph"]} levels {fls} of table FL {c["fls"]} (rows listed {c["ord"]}, cruise ROCD residual {c["cz"]}, cruise lacks {c["cf"]} lowest / descent {c["dt"]} highest levels)'
+        where = f'{c["ph"]} FL {fl} (given as {fl} x FL_TO_METERS m) mass {mass!r} ({type(mass).__name__}) in the {c["ph"]} levels {fls} of table FL {c["fls"]} (rows listed {c["ord"]}, cruise ROCD residual {c["cz"]}, cruise lacks {c["cf"]} lowest / descent {c["dt"]} highest levels)'
         try:
             p = pm.evaluate(AircraftState(altitude=fl * FL_TO_METERS, aircraft_mass=mass, true_airspeed=200.0, rate_of_climb=0.0), rule)
             refused = False
